@@ -430,8 +430,9 @@ def decodeOneDecoder (opts : DecOpts) (ver : Nat) (mesh : Mesh) (posAtt : Option
     if dec.attDataId < 0 then mesh.vc.size
     else max (mesh.atts[dec.attDataId.toNat]!).lm.size mesh.vc.size
   alloc "mesh_traversal_sequencer.point_ids" (4 * view.numVertices)
-  let seq ← liftR (if dec.traversalMethod == Generated.MESH_TRAVERSAL_PREDICTION_DEGREE.toNat
-                   then maxPredictionDegree view mesh.faces v2dSize
+  -- (the per-corner decoder always traverses depth first; `CreateAttributesDecoder` rejects any other method for it)
+  let seq ← liftR (if !dec.cornerDecoder && dec.traversalMethod == Generated.MESH_TRAVERSAL_PREDICTION_DEGREE.toNat
+                   then maxPredictionDegree baseView mesh.faces v2dSize
                    else depthFirst view mesh.faces v2dSize)
   tag (if dec.cornerDecoder then "traversal:depth_first:attribute_table"
        else if dec.traversalMethod == Generated.MESH_TRAVERSAL_PREDICTION_DEGREE.toNat then "traversal:max_prediction_degree"
